@@ -341,3 +341,284 @@ Section Colls.
     unfold prepare_attr_value. destruct v; try exact B. apply T_ret. auto.
   Qed.
 End Colls.
+
+(* ------------------------------------------------------------------ *)
+(** * Whole operations, every family *)
+Section CollOps.
+  Variable ct : ctable.
+  Hypothesis Hflat : flat_table ct.
+  Hypothesis Hninv : no_inval_table ct.
+  Notation Inv := (Inv ct).
+  Notation rec := (exec ct XFUEL).
+
+  Definition recv_leafc (l : loc) (a : aid) (h : heap_t) : Prop :=
+    forall cl d k sp, nth_error h l = Some (OInst cl d) -> lookup_cls ct cl = Some k ->
+      lookup_attr k a = Some sp -> exists fam, leaf_coll sp fam.
+
+  Lemma prepare_then_store' rec' fuel l a sp fam v :
+    leaf_coll sp fam ->
+    T (fun h => Inv h /\ loose h v)
+      (value <- prepare_attr_value ct (exec ct fuel) sp l v None ;;
+       mutate_attr ct rec' l a value true true false false)
+      (fun _ h => Inv h) Inv.
+  Proof.
+    intro Hl. eapply T_bind.
+    - eapply T_conseq; [apply (prepare_attr_value_leaf ct Hflat (exec ct fuel) (Hmv ct Hflat fuel) fam sp l v (fun _ => True) Hl cstable_true)| | |].
+      + intros h [I L]. split; [apply IF_true; exact I|exact L].
+      + intros r h H. exact H.
+      + intros h [I _]. exact I.
+    - intros value. eapply T_pre; [|apply (mutate_attr_inplace ct Hflat Hninv rec' l a value true)].
+      intros h [[I _] L]. split; auto. split; [left; exact L|discriminate].
+  Qed.
+
+  Lemma setattr_Inv' fuel l a v :
+    T (fun h => Inv h /\ loose h v /\ recv_leafc l a h)
+      (setattr_ ct (exec ct fuel) l a v false false) (fun _ h => Inv h) Inv.
+  Proof.
+    unfold setattr_.
+    eapply T_bind; [apply T_read_inst; tauto|]. intros [cl d]. cbn [fst snd].
+    eapply T_bind; [apply T_cls_of; tauto|]. intros k.
+    intros s [[[I [L R]] N] Hk].
+    destruct (lookup_attr k a) as [sp|] eqn:Ha.
+    - destruct (R _ _ _ _ N Hk Ha) as [fam Hl].
+      apply (prepare_then_store' (exec ct fuel) fuel l a sp fam v Hl s). auto.
+    - rewrite bind_ret_l.
+      apply (mutate_attr_inplace ct Hflat Hninv (exec ct fuel) l a v true s).
+      split; auto. split; [left; exact L|discriminate].
+  Qed.
+
+  (* obj.a = v on a leaf collection attribute of any family *)
+  Theorem step_setattr_coll roots x a v s :
+    Inv (heap s) -> loose (heap s) v ->
+    (forall l, nth x roots VNone = VRef l -> recv_leafc l a (heap s)) ->
+    Inv (heap (snd (step ct roots (OpSetAttr x a v) s))).
+  Proof.
+    intros I L R. unfold step.
+    destruct (nth x roots VNone) as [| | | | | | | |l] eqn:Er; try exact I.
+    cbn [loc_of]. rewrite bind_ret_l.
+    eapply T_run_then with (P := fun h => Inv h /\ loose h v /\ recv_leafc l a h) (Q := fun _ h => Inv h) (E := Inv);
+      auto.
+    assert (Ex : exists f, XFUEL = S f) by (exists 39; reflexivity). destruct Ex as [f ->].
+    rewrite exec_S. apply setattr_Inv'.
+  Qed.
+
+  (* obj.with_<a>(v, _inplace=True) *)
+  Theorem step_with_inplace_coll roots x a hh s :
+    Inv (heap s) -> loose (heap s) (pos0 hh) -> h_inplace hh = true -> h_kw hh = None ->
+    (forall l, nth x roots VNone = VRef l -> recv_leafc l a (heap s)) ->
+    Inv (heap (snd (step ct roots (OpHelper x (HWith a) hh) s))).
+  Proof.
+    intros I L Hin Hkw R. unfold step.
+    destruct (nth x roots VNone) as [| | | | | | | |l] eqn:Er; try exact I.
+    cbn [loc_of]. rewrite bind_ret_l. specialize (R l eq_refl).
+    unfold run_helper. destruct (negb (h_if hh)); [exact I|]. rewrite Hin, Hkw.
+    eapply T_run with (P := fun h => Inv h /\ loose h (pos0 hh) /\ recv_leafc l a h) (Q := fun _ h => Inv h) (E := Inv);
+      auto.
+    unfold spec_for.
+    eapply T_bind.
+    { eapply T_bind; [apply T_read_inst; tauto|]. intros [cl d]. cbn [fst snd].
+      eapply T_bind; [apply T_cls_of; tauto|]. intros k.
+      instantiate (1 := fun r h => (Inv h /\ loose h (pos0 hh)) /\ a_name (snd r) = a /\ exists fam, leaf_coll (snd r) fam).
+      intros s0 [[[I0 [L0 R0]] N] Hk].
+      destruct (lookup_attr k a) as [sp|] eqn:Ha; simpl; auto.
+      split; auto. split; [eapply lookup_attr_name; eauto|eauto]. }
+    intros r. apply T_pull. intros [Hn [fam Hl]]. unfold with_attr. rewrite Hn.
+    apply (prepare_then_store' (exec ct XFUEL) XFUEL l a (snd r) fam (pos0 hh) Hl).
+  Qed.
+
+  (* ---------- element helpers ---------- *)
+  Local Opaque exec XFUEL.
+  Let HrecMv := Hmv ct Hflat XFUEL.
+
+  Lemma held_coll h l cl d k a sp fam v :
+    Inv h -> nth_error h l = Some (OInst cl d) -> lookup_cls ct cl = Some k ->
+    lookup_attr k a = Some sp -> leaf_coll sp fam -> assoc a d = Some v ->
+    exists fc, v = VRef fc /\ conf ct h v sp.
+  Proof.
+    intros [T _] N Hk Ha (Hf & _) As.
+    assert (C : check_type FUEL ct h v (a_ty sp) = true).
+    { eapply T; eauto. now apply assoc_in. }
+    destruct v as [| | | | | | | |fc]; [..|eauto];
+      destruct FUEL_SS as [f Ef]; rewrite Ef in C;
+      destruct (a_ty sp); simpl in Hf; try discriminate; simpl in C; discriminate.
+  Qed.
+
+  Lemma store_held l cl d k a sp fam fc :
+    lookup_cls ct cl = Some k -> lookup_attr k a = Some sp -> leaf_coll sp fam ->
+    assoc a d = Some (VRef fc) ->
+    T (fun h => (Inv h /\ inst_at l cl d h) /\ conf ct h (VRef fc) sp)
+      (mutate_attr ct rec l a (VRef fc) true false false false) (fun _ h => Inv h) Inv.
+  Proof.
+    intros Hk Ha Hl As.
+    eapply T_pre; [|apply (mutate_attr_inplace ct Hflat Hninv rec l a (VRef fc) false)].
+    intros h [[I N] C]. split; auto. split.
+    - right. exists cl, d. auto.
+    - intros _ cl' d' k' sp' N' Hk' Ha'. unfold inst_at in N. rewrite N in N'. inversion N'; subst cl' d'.
+      rewrite Hk in Hk'. inversion Hk'; subst k'. rewrite Ha in Ha'. inversion Ha'; subst sp'. exact C.
+  Qed.
+
+  Lemma store_loose l cl d k a sp fc :
+    lookup_cls ct cl = Some k -> lookup_attr k a = Some sp ->
+    T (fun h => (Inv h /\ inst_at l cl d h /\ loose h (VRef fc)) /\ conf ct h (VRef fc) sp)
+      (mutate_attr ct rec l a (VRef fc) true false false false) (fun _ h => Inv h) Inv.
+  Proof.
+    intros Hk Ha.
+    eapply T_pre; [|apply (mutate_attr_inplace ct Hflat Hninv rec l a (VRef fc) false)].
+    intros h [[I [N L]] C]. split; auto. split; [left; exact L|].
+    intros _ cl' d' k' sp' N' Hk' Ha'. unfold inst_at in N. rewrite N in N'. inversion N'; subst cl' d'.
+    rewrite Hk in Hk'. inversion Hk'; subst k'. rewrite Ha in Ha'. inversion Ha'; subst sp'. exact C.
+  Qed.
+
+  Lemma held_view l cl d k a sp fam fc :
+    lookup_cls ct cl = Some k -> lookup_attr k a = Some sp -> leaf_coll sp fam ->
+    assoc a d = Some (VRef fc) ->
+    forall h, Inv h -> inst_at l cl d h -> refcount h fc = 0 \/ only_view ct h fc (a_ty sp).
+  Proof.
+    intros Hk Ha (_ & Sc & _) As h I N. right.
+    eapply Owned_only_view; eauto; [apply I|now apply assoc_in|now apply scalar_coll_flat].
+  Qed.
+
+  (* an element operation M on the cell fc, then the store: attribute holds fc *)
+  Lemma tail_held l cl d k a sp fam fc (Mid : M val) :
+    lookup_cls ct cl = Some k -> lookup_attr k a = Some sp -> leaf_coll sp fam ->
+    assoc a d = Some (VRef fc) ->
+    (forall F, cstable F ->
+       (forall h, Inv h -> F h -> refcount h fc = 0 \/ only_view ct h fc (a_ty sp)) ->
+       T (fun h => IF ct F h /\ conf ct h (VRef fc) sp) Mid
+         (fun r h => (IF ct F h /\ conf ct h (VRef fc) sp) /\ r = VRef fc) (IF ct F)) ->
+    T (fun h => Inv h /\ inst_at l cl d h)
+      (c' <- Mid ;; mutate_attr ct rec l a c' true false false false) (fun _ h => Inv h) Inv.
+  Proof.
+    intros Hk Ha Hl As HM.
+    eapply T_bind.
+    - eapply T_conseq.
+      + apply (HM (inst_at l cl d) (cstable_inst_at l cl d)). eapply held_view; eauto.
+      + intros h [I N]. split; [split; auto|].
+        destruct (held_coll h l cl d k a sp fam (VRef fc) I N Hk Ha Hl As) as [fc' [_ C]]. exact C.
+      + intros r h H. exact H.
+      + intros h [I _]. exact I.
+    - intros c'. apply T_pull. intros ->. eapply store_held; eauto.
+  Qed.
+
+  (* the same on a fresh cell *)
+  Lemma tail_loose l cl d k a sp fam fc (Mid : M val) :
+    lookup_cls ct cl = Some k -> lookup_attr k a = Some sp -> leaf_coll sp fam ->
+    (forall F, cstable F ->
+       (forall h, Inv h -> F h -> refcount h fc = 0 \/ only_view ct h fc (a_ty sp)) ->
+       T (fun h => IF ct F h /\ conf ct h (VRef fc) sp) Mid
+         (fun r h => (IF ct F h /\ conf ct h (VRef fc) sp) /\ r = VRef fc) (IF ct F)) ->
+    T (fun h => (Inv h /\ inst_at l cl d h /\ loose h (VRef fc)) /\ conf ct h (VRef fc) sp)
+      (c' <- Mid ;; mutate_attr ct rec l a c' true false false false) (fun _ h => Inv h) Inv.
+  Proof.
+    intros Hk Ha Hl HM.
+    set (G := fun h => inst_at l cl d h /\ loose h (VRef fc)).
+    assert (SG : cstable G) by (apply cstable_and; [apply cstable_inst_at|apply cstable_loose]).
+    eapply T_bind.
+    - eapply T_conseq.
+      + apply (HM G SG). intros h _ [_ [_ Z]]. left. exact Z.
+      + intros h [[I [N L]] C]. split; [split; [exact I|split; auto]|exact C].
+      + intros r h H. exact H.
+      + intros h [I _]. exact I.
+    - intros c'. apply T_pull. intros ->.
+      eapply T_pre; [|apply (store_loose l cl d k a sp fc Hk Ha)]. intros h [[I [N L]] C]. split; auto.
+  Qed.
+
+  (* the attribute holds nothing: the collection is created first *)
+  Lemma tail_missing l cl d k a sp fam io :
+    lookup_cls ct cl = Some k -> lookup_attr k a = Some sp -> leaf_coll sp fam -> io_plain io ->
+    T (fun h => Inv h /\ inst_at l cl d h)
+      (c' <- mutate_collection ct rec fam sp l VMissing io ;;
+       mutate_attr ct rec l a c' true false false false)
+      (fun _ h => Inv h) Inv.
+  Proof.
+    intros Hk Ha Hl Hio. pose proof Hl as (Hf & _).
+    intros s [I N].
+    pose proof (create_coll ct Hflat rec sp fam (inst_at l cl d) Hf (astable_inst_at l cl d) s (conj I N)) as Cr.
+    unfold mutate_collection. cbn [is_missing]. unfold bind at 1. unfold bind at 1.
+    destruct (create_collection rec sp s) as [[c1|err] s1]; [|exact (proj1 Cr)].
+    destruct Cr as [[I1 N1] [fc [-> [L C]]]].
+    exact (tail_loose l cl d k a sp fam fc (mutate_collection ct rec fam sp l (VRef fc) io) Hk Ha Hl
+             (fun F SF HV => mutate_collection_leaf ct Hflat rec HrecMv fam sp l fc io F Hl Hio SF HV)
+             s1 (conj (conj I1 (conj N1 L)) C)).
+  Qed.
+
+  Definition dflt_missingc (l : loc) (a : aid) (h : heap_t) : Prop :=
+    forall cl d k, nth_error h l = Some (OInst cl d) -> lookup_cls ct cl = Some k ->
+      assoc a d = None -> class_default k a = VMissing.
+
+  (* resolve the prefix of an in-place element helper: the spec and the collection held *)
+  Lemma elem_prefix l a s (K : cls * attr_spec -> val -> M val) :
+    Inv (heap s) -> recv_leafc l a (heap s) -> dflt_missingc l a (heap s) ->
+    (forall cl d k sp fam, nth_error (heap s) l = Some (OInst cl d) -> lookup_cls ct cl = Some k ->
+        lookup_attr k a = Some sp -> leaf_coll sp fam ->
+        (forall fc, assoc a d = Some (VRef fc) -> Inv (heap (snd (K (k, sp) (VRef fc) s)))) /\
+        (assoc a d = None -> Inv (heap (snd (K (k, sp) VMissing s))))) ->
+    Inv (heap (snd ((r <- spec_for ct l a ;; c <- mk_mutator ct (snd r) l true ;; K r c) s))).
+  Proof.
+    intros I R D HK.
+    destruct (nth_error (heap s) l) as [o|] eqn:N.
+    2:{ unfold bind at 1. unfold spec_for, bind at 1. unfold read_inst, bind at 1. unfold read. rewrite N. exact I. }
+    destruct o as [xs|kvs|xs|cl d];
+      try (unfold bind at 1; unfold spec_for, bind at 1; unfold read_inst, bind at 1; unfold read; rewrite N; exact I).
+    destruct (lookup_cls ct cl) as [k|] eqn:Hk.
+    2:{ unfold bind at 1. unfold spec_for. erewrite bind_ok'; [|apply read_inst_eq; eauto]. cbn [fst snd].
+        unfold bind at 1. unfold cls_of. rewrite Hk. exact I. }
+    unfold bind at 1. rewrite (spec_for_run ct l a s cl d k N Hk).
+    destruct (lookup_attr k a) as [sp|] eqn:Ha; [|exact I].
+    cbn [snd].
+    destruct (R _ _ _ _ N Hk Ha) as [fam Hl].
+    pose proof (lookup_attr_name k a sp Ha) as Hn.
+    unfold bind at 1.
+    destruct (mk_mutator_run ct sp l s cl d k N Hk) as [E|E]; rewrite E; [exact I|].
+    rewrite Hn. destruct (HK cl d k sp fam eq_refl Hk Ha Hl) as [K1 K2].
+    destruct (assoc a d) as [v|] eqn:As.
+    - destruct (held_coll (heap s) l cl d k a sp fam v I N Hk Ha Hl As) as [fc [-> _]]. apply K1. reflexivity.
+    - rewrite (D _ _ _ N Hk As). apply K2. reflexivity.
+  Qed.
+
+  (* with_<item>(..., _inplace=True), every family *)
+  Theorem with_item_inplace_coll l a hh s :
+    h_inplace hh = true -> h_kw hh = None ->
+    Inv (heap s) -> recv_leafc l a (heap s) -> dflt_missingc l a (heap s) ->
+    Inv (heap (snd (run_helper ct l (HWithItem a) hh s))).
+  Proof.
+    intros Hin Hkw I R D. unfold run_helper. destruct (negb (h_if hh)); [exact I|]. rewrite Hin, Hkw.
+    cbv zeta.
+    apply (elem_prefix l a s (fun r c =>
+      c' <- (match family_of (a_ty (snd r)) with
+             | Some FSeq =>
+                 mutate_collection ct rec FSeq (snd r) l c
+                   (mkio (h_index hh) (pos0 hh) None None [] true
+                         (negb (is_missing (h_index hh)) && negb (h_insert hh)) TriTrue (h_insert hh))
+             | Some FMap =>
+                 mutate_collection ct rec FMap (snd r) l c
+                   (mkio (match h_pos hh with [] => VNone | k :: _ => k end)
+                         (match h_pos hh with _ :: v :: _ => v | _ => VMissing end)
+                         None None [] true false TriTrue false)
+             | Some FSet =>
+                 mutate_collection ct rec FSet (snd r) l c
+                   (mkio VMissing (pos0 hh) None None [] true false TriTrue false)
+             | None => fail AttrErr end) ;;
+      mutate_attr ct rec l a c' true false false false) I R D).
+    intros cl d k sp fam N Hk Ha Hl. pose proof Hl as (Hf & _). cbn [snd]. rewrite Hf.
+    split.
+    - intros fc As.
+      destruct fam;
+        (eapply (T_run _ _ _ _ Inv s); [eapply (tail_held l cl d k a sp _ fc); eauto| | |]; auto;
+         [intros F SF HV; eapply mutate_collection_leaf; eauto; repeat split|split; auto]).
+    - intros As.
+      destruct fam;
+        (eapply (T_run _ _ _ _ Inv s); [eapply (tail_missing l cl d k a sp); eauto; repeat split| | |]; auto;
+         split; auto).
+  Qed.
+
+  Theorem step_with_item_inplace_coll roots x a hh s :
+    h_inplace hh = true -> h_kw hh = None -> Inv (heap s) ->
+    (forall l, nth x roots VNone = VRef l -> recv_leafc l a (heap s) /\ dflt_missingc l a (heap s)) ->
+    Inv (heap (snd (step ct roots (OpHelper x (HWithItem a) hh) s))).
+  Proof.
+    intros Hin Hkw I R. unfold step.
+    destruct (nth x roots VNone) as [| | | | | | | |l] eqn:Er; try exact I.
+    cbn [loc_of]. rewrite bind_ret_l. destruct (R l eq_refl). apply with_item_inplace_coll; auto.
+  Qed.
+End CollOps.
